@@ -80,13 +80,17 @@ CheckRefund(e, post) ==
      \* with this withdrawal and the sub-unit rest is carried
      \cup (IF rec = {} \/ ~Has(disp, e.id) THEN {}
            ELSE LET p == CHOOSE x \in rec : TRUE
-                    fmb == IF d.status = FAILED THEN d.feetotal // N(20) ELSE Monus(d.slash, d.burn)
+                    \* a failed (never fully funded) dispute gives the fees back less the 5% burn; each payer's part of the burn
+                    \* leaves escrow with its refund (the code refunded only the 5% and kept the rest in escrow for ever - F-17)
+                    fburn == d.feetotal // N(20)
+                    fmb == IF d.status = FAILED THEN d.feetotal -- fburn ELSE Monus(d.slash, d.burn)
+                    pburn == IF d.status = FAILED THEN (p.amt ** fburn) // d.feetotal ELSE Zero
                     fr1 == ((p.amt ** fmb ** E6) // d.feetotal) %% E6
                     fr2 == IF d.status # FAILED /\ ResultOf(d) \in {1, 4} THEN ((p.amt ** d.slash ** E6) // d.feetotal) %% E6 ELSE Zero
                     total == dust ++ fr1 ++ fr2
                     out == ((p.amt ** fmb) // d.feetotal) ++ (IF d.status # FAILED /\ ResultOf(d) \in {1, 4} THEN (p.amt ** d.slash) // d.feetotal ELSE Zero)
                     left == Monus(bal, e.post.dispute.bal)   \* what left dispute escrow with this withdrawal: the payout and the burn
-                IN IF out \preceq left /\ (left -- out) = total // E6 /\ e.post.dispute.dust = total %% E6 THEN {}
+                IN IF (out ++ pburn) \preceq left /\ (left -- (out ++ pburn)) = total // E6 /\ e.post.dispute.dust = total %% E6 THEN {}
                    ELSE {"SubUnitDustIsAccumulatedAndBurnedInWholeUnits"})
      \cup (IF rec = {} \/ ~Has(disp, e.id) \/ d.status = FAILED THEN {}
            ELSE LET p == CHOOSE x \in rec : TRUE
@@ -127,7 +131,8 @@ Bump(f, h, din, dout) == IF h = "none" THEN f
 \* when nothing is left to claim for a family, at most dust remains of what entered for it
 AllClaimed(post, ps, vs, h) ==
   LET ds == { d \in Range(post) : d.hash = h } IN
-  /\ \E d \in ds : Executed(d)
+  \* the family was executed - or never fully funded and has failed (its payers claim too)
+  /\ (\E d \in ds : Executed(d)) \/ (ds # {} /\ \A d \in ds : d.status = FAILED)
   /\ \A d \in ds : { p \in Range(ps) : p.id = d.id } = {}
   /\ \A d \in ds : \A v \in Range(vs) : v.id = d.id => v.claimed
 CheckResidual(e, f2) ==
@@ -140,6 +145,7 @@ CheckResidual(e, f2) ==
   IN IF bad = {} THEN {}
      ELSE IF bad = f13 THEN {"KNOWN:F-13"}
      ELSE { IF "F-18" \in KNOWN /\ (\E h \in bad : \E d \in Range(post) : d.hash = h /\ d.round > 1) THEN "KNOWN:F-18"
+            ELSE IF "F-17" \in KNOWN /\ (\A h \in bad : \E d \in Range(post) : d.hash = h /\ d.status = FAILED) THEN "KNOWN:F-17"
             ELSE "AfterAllClaimsOnlyDustRemains" }
 
 Check(e, f2) ==
